@@ -147,7 +147,6 @@ def _extra():
         add("load-with-deferred-effects", "unsigned char arr[4], z;", "Y = %d; load(arr[Y]++); store(z);" % y, {"init": {"arr+%d" % y: 7}, "expect": {"z": 7, "arr+%d" % y: 8}}, "load(arr[Y]++); store(z); Y=%d" % y)
     add("load-with-deferred-effects", "unsigned char i, z;", "load(i++); store(z);", {"init": {"i": 7}, "expect": {"z": 7, "i": 8}}, "load(i++); store(z);")
     # ---- recorded known findings (reported by the hunting sub-agents, confirmed here, not repaired: see known_findings.jsonl) ----
-    add("kf-char-assignment-nested-in-16bit-assignment", "short s, t; unsigned char a;", "s = 0x5555; s = a = t;", {"init": {"t": 7, "t+1": 2}, "expect": {"a": 7}, "expect16": {"s": 7}}, "s = a = t: the value of `a = t` is a's, high byte 0")
     add("kf-postincrement-in-call-argument", "unsigned char i, r; void f(unsigned char p) { r = i; }", "i = 5; f(i++);", {"expect": {"r": 6, "i": 6}}, "f(i++): the increment happens before the call (sequence point)")
     add("kf-16bit-truth-value", "short s; unsigned char b;", "b = 0; if (s & 0x100) b = 1;", {"init": {"s": 0, "s+1": 1}, "expect": {"b": 1}}, "if (s & 0x100) with s = 0x100")
     add("kf-16bit-truth-value", "short sa[4]; unsigned char b;", "b = 0; X = 1; if (sa[X]) b = 1;", {"init": {"sa+5": 1}, "expect": {"b": 1}}, "if (sa[X]) with only the high byte set")
